@@ -27,26 +27,48 @@ func schemeOf(v string) (scheme string, abs bool) {
 	return "", false
 }
 
-// hasAuthority is the purely syntactic RFC 3986 reading of "starts with a protocol and has a
-// host" / scheme-relative with a host: [scheme ":"] "//" authority with a non-empty host after
-// removing userinfo and port.
+// hasAuthority reports whether the value, read as an href, can take a browser to a host of its own
+// ("starts with a protocol and has a host" / scheme-relative with a host). URL Standard, basic URL
+// parser: the value is first stripped of leading and trailing C0 control or space and of every
+// ASCII tab and newline. For the special schemes that carry an authority (http, https, ftp, ws,
+// wss) any run of slashes and backslashes may follow the colon (special authority slashes / ignore
+// slashes states), and "http:host" without any slash is an authority too unless the base URL has
+// the same scheme -- the base is unknown here, so it counts. A scheme-less reference inherits the
+// (special) scheme of the document: two leading slashes or backslashes start an authority, further
+// ones are ignored. Every other scheme is read with RFC 3986: "//" authority.
 func hasAuthority(v string) bool {
-	// the same preprocessing as schemeOf: an href is a "valid URL potentially surrounded by spaces",
-	// and the URL parser drops ASCII tab and newline wherever they stand
 	v = strings.TrimFunc(v, func(r rune) bool { return r <= 0x20 })
 	if strings.ContainsAny(v, "\t\n\r") {
 		v = strings.NewReplacer("\t", "", "\n", "", "\r", "").Replace(v)
 	}
 	rest := v
-	if _, abs := schemeOf(v); abs {
+	sch, abs := schemeOf(v)
+	if abs {
 		rest = v[strings.Index(v, ":")+1:]
 	}
-	if !strings.HasPrefix(rest, "//") {
-		return false
-	}
-	auth := rest[2:]
-	if i := strings.IndexAny(auth, "/?#"); i >= 0 {
-		auth = auth[:i]
+	special := abs && (sch == "http" || sch == "https" || sch == "ftp" || sch == "ws" || sch == "wss")
+	var auth string
+	switch {
+	case special || !abs:
+		n := 0
+		for n < len(rest) && (rest[n] == '/' || rest[n] == '\\') {
+			n++
+		}
+		if !abs && n < 2 {
+			return false
+		}
+		auth = rest[n:]
+		if i := strings.IndexAny(auth, "/\\?#"); i >= 0 {
+			auth = auth[:i]
+		}
+	default:
+		if !strings.HasPrefix(rest, "//") {
+			return false
+		}
+		auth = rest[2:]
+		if i := strings.IndexAny(auth, "/?#"); i >= 0 {
+			auth = auth[:i]
+		}
 	}
 	if i := strings.LastIndex(auth, "@"); i >= 0 {
 		auth = auth[i+1:]
